@@ -194,6 +194,8 @@ def _worker_batch(prop: str, tier: str, root_seed: int, indices: list, known_fps
                 res['errors'].append({'index': idx, 'seed': seed, 'tb': traceback.format_exc()[-3000:]})
                 continue
             res['n'] += 1
+            if res['n'] % 20 == 0:
+                gc.collect()   # between runs (never inside one): cyclic garbage of finished runs
             res['stats'].update(out.stats)
             res['steps'] += out.steps
             res['states'].update(out.states)
@@ -217,6 +219,8 @@ def _worker_batch(prop: str, tier: str, root_seed: int, indices: list, known_fps
 def _worker_init() -> None:
     sys.path.insert(0, VERIF)
     install_determinism_seams()
+    gc.collect()
+    gc.freeze()     # collections between runs only look at what the runs allocated
 
 
 # --------------------------------------------------------------------------- shrinking
